@@ -133,6 +133,30 @@ def run(tier):
     for n, (kind, m) in enumerate(cases):
         jobs.append({"id": "x%d" % n, "entry": "xml_buffer", "text": xmlgen.render_xml(docgen.to_xmlgen(m)), "positions": False})
         jobs.append({"id": "t%d" % n, "entry": "xta", "text": docgen.render_xta(m)})
+    # the production zoo (lib/zoo.py): documents with every declaration / statement / type construct, a full .xta, 3.x syntax, and the zoo's
+    # accepted models; plus token-level faults (every 5th / every position) in the document-building texts: the walker on rarely built objects
+    import zoo, lrconf, xtalex
+    gen = os.path.join(vf.lib_dir("asan"), "gen")
+    lx = lrconf.Lexemes(os.path.join(gen, "lexemes.json"))
+    scn = {s: xtalex.Scanner(os.path.join(gen, "lexemes.json"), s) for s in ("new", "old")}
+    zjobs = []
+    for d in zoo.corpus():
+        if d["job"]["entry"] == "xta" or (d["job"]["entry"] == "part" and d["job"].get("part") in ("S_DECLARATION", "S_SYSTEM")):
+            zjobs.append(("zoo", dict(d["job"], text=d["text"])))
+            toks = scn[d["syntax"]].scan(d["text"], zoo.TYPES)
+            for pos in range(0, len(toks), 5 if quick else 1):
+                for ft in (toks[:pos] + toks[pos + 1:], toks[:pos] + [{"t": "T_ERROR", "n": 0, "s": ""}] + toks[pos + 1:], toks[:pos] + [{"t": "'}'", "n": 0, "s": ""}] + toks[pos:]):
+                    try:
+                        zjobs.append(("zoofault", dict(d["job"], text=lx.render(ft))))
+                    except KeyError:
+                        pass
+    for zn, zm in zoo.accepted_models():
+        zjobs.append(("zoo", {"entry": "xml_buffer", "text": xmlgen.render_xml(zm)}))
+    zkind = {}
+    for k, (kind, j) in enumerate(zjobs):
+        j["id"] = "z%d" % k
+        zkind[j["id"]] = kind
+        jobs.append(j)
     repo_models = sorted(glob.glob(os.path.join(vf.REPO, "test/models/*.xml")))
     for f in repo_models:
         jobs.append({"id": "repo:" + os.path.basename(f), "entry": "xml_file", "file": f})
@@ -142,7 +166,7 @@ def run(tier):
     kinds = {}
     for j in jobs:
         r = res[j["id"]]
-        kind = cases[int(j["id"][1:])][0] if j["id"][0] in "xt" and not j["id"].startswith("repo") else "repo"
+        kind = zkind[j["id"]] if j["id"] in zkind else cases[int(j["id"][1:])][0] if j["id"][0] in "xt" and not j["id"].startswith("repo") else "repo"
         if r.get("outcome") not in ("return", "throw"):
             c.finding("c08:crash:%s" % kind, "parse crashed (%s) [%s]" % (r.get("outcome"), kind), {"input": j.get("text") or j.get("file"), "entry": j["entry"], "stderr": (r.get("stderr") or "")[:1500]})
             continue
